@@ -399,7 +399,37 @@ func mutate(r *rng.R, ls []string, donors [][]string) ([]string, string) {
 		}
 		return out, fmt.Sprintf("resize line %d", i+1)
 	case k == 19 || k >= 22: // consistent semantic edits that reach the deeper guards
-		switch r.Intn(5) {
+		switch r.Intn(7) {
+		case 5:
+			// a routing number of the file header written zero-filled ("0231380104") instead of blank-filled
+			// (" 231380104"): ten characters that the header parser trims back to nine
+			i := pickRec('1')
+			if i >= 0 && len(ls[i]) >= 23 {
+				lo := rng.Pick(r, []int{3, 13})
+				if ls[i][lo] == ' ' {
+					out := append([]string{}, ls...)
+					out[i] = setCols(ls[i], lo, lo+1, "0")
+					return out, fmt.Sprintf("file header routing number at column %d zero-filled", lo+1)
+				}
+			}
+			return ls, "noop"
+		case 6:
+			// the return code of one return addenda replaced by a dishonored / contested return code (R61..R77):
+			// the batch then mixes return families
+			var idx []int
+			for k, l := range ls {
+				if strings.HasPrefix(l, "799") && len(l) >= 6 {
+					idx = append(idx, k)
+				}
+			}
+			if len(idx) == 0 {
+				return ls, "noop"
+			}
+			i := rng.Pick(r, idx)
+			out := append([]string{}, ls...)
+			code := rng.Pick(r, []string{"R61", "R62", "R67", "R68", "R69", "R70", "R71", "R72", "R73", "R74", "R75", "R76", "R77", "R01"})
+			out[i] = setCols(ls[i], 3, 6, code)
+			return out, fmt.Sprintf("return code of line %d -> %s", i+1, code)
 		case 4:
 			// white space other than the blank in a padding column next to the value: strings.TrimSpace removes it,
 			// a parser that only strips blanks keeps it as part of the value
